@@ -539,42 +539,54 @@ func (h *c16H) modelRevive(n, dom int) (exp []c16Tr) {
 
 // ---- events ---------------------------------------------------------------------
 
-func (h *c16H) evProbe(n, dom, variant int, kind string, lat time.Duration, err error) {
+// evProbe runs one probe through the real Dialer.Check retry logic. attempts[i]
+// scripts what CheckFunc returns on its (i+1)-th call: "ok", "err" (a real
+// failure), "cancel" (context.Canceled: teardown) or "noip" (ok=false, err=nil:
+// no applicable ip). A probe counts as a failure only if its final attempt
+// failed for real; a cancelled / skipped final attempt changes nothing, also when
+// an earlier attempt of the same probe failed for real.
+func (h *c16H) evProbe(n, dom, variant int, attempts [2]string, lat time.Duration, err, cerr error) {
 	nt := c16Types(dom)[variant%len(c16Types(dom))]
 	calls := 0
+	last := ""
 	opt := &CheckOption{networkType: nt, CheckFunc: func(ctx context.Context, typ *NetworkType) (bool, error) {
+		if calls >= 2 {
+			h.failf("CheckFunc called a third time for one probe")
+		}
+		last = attempts[calls]
 		calls++
 		time.Sleep(lat)
-		switch kind {
+		switch last {
 		case "ok":
 			return true, nil
-		case "flaky":
-			if calls == 1 {
-				return false, err
-			}
-			return true, nil
-		case "fail":
+		case "err":
 			return false, err
 		case "cancel":
-			return false, err
+			return false, cerr
 		default: // "noip"
 			return false, nil
 		}
 	}}
-	h.logf("probe %s n%d %s v%d lat=%v err=%v", kind, n, c16DomNames[dom], variant, lat, err)
+	h.logf("probe %v n%d %s v%d lat=%v err=%v cerr=%v", attempts, n, c16DomNames[dom], variant, lat, err, cerr)
 	_, _ = h.nodes[n].Check(opt)
+	if calls == 0 {
+		h.failf("Check never called CheckFunc")
+	}
+	if calls == 2 {
+		h.class("probe_retried_" + attempts[0] + "_then_" + attempts[1])
+	}
 	var exp []c16Tr
-	switch kind {
-	case "ok", "flaky":
+	switch last {
+	case "ok":
 		if !h.m.alive[n][dom] {
 			h.class("revive_by_probe")
 		}
 		exp = h.modelRevive(n, dom)
 		h.firmSuccess(n)
-	case "fail":
+	case "err":
 		exp = h.modelFail(n, dom, true)
 	default:
-		h.class("probe_" + kind + "_ignored")
+		h.class("probe_" + last + "_ignored")
 	}
 	h.verify(exp)
 }
@@ -820,14 +832,34 @@ func c16Case(t *rapid.T) {
 				p.dom -= 2
 			}
 			lat := time.Duration(rapid.IntRange(1, 3000).Draw(t, "lat_ms")) * time.Millisecond
-			var err error
+			err := rapid.SampledFrom(c16RealErrs).Draw(t, "err")
+			cerr := rapid.SampledFrom(c16TeardownErrs[:2]).Draw(t, "cerr")
+			// per-attempt script: the first attempt follows the event, the retry (made
+			// only after a real error) is drawn freely, biased to the event's outcome.
+			var attempts [2]string
+			retry := rapid.SampledFrom([]string{"same", "same", "ok", "err", "cancel", "noip"}).Draw(t, "retry")
 			switch ev {
-			case "probe_fail", "probe_flaky":
-				err = rapid.SampledFrom(c16RealErrs).Draw(t, "err")
+			case "probe_ok":
+				attempts = [2]string{"ok", "ok"}
 			case "probe_cancel":
-				err = rapid.SampledFrom(c16TeardownErrs[:2]).Draw(t, "cerr")
+				attempts = [2]string{"cancel", "err"}
+				if retry != "same" {
+					attempts = [2]string{"err", "cancel"}
+				}
+			case "probe_noip":
+				attempts = [2]string{"noip", "err"}
+				if retry != "same" {
+					attempts = [2]string{"err", "noip"}
+				}
+			case "probe_flaky":
+				attempts = [2]string{"err", "ok"}
+			default: // probe_fail
+				attempts = [2]string{"err", "err"}
+				if retry != "same" {
+					attempts[1] = retry
+				}
 			}
-			h.evProbe(p.n, p.dom, variant, strings.TrimPrefix(ev, "probe_"), lat, err)
+			h.evProbe(p.n, p.dom, variant, attempts, lat, err, cerr)
 		case "traffic_fail", "trans_fail":
 			if ev == "trans_fail" && p.dom/2 != 1 {
 				// transactional (DNS request) failures are reported for DNS-UDP only.
